@@ -72,7 +72,11 @@ Definition exp_oracle (input call : json) : option string :=
       (* n = the argument of the most recent expires_in_seconds call on this issuer object, [exp_t0, exp_t1] the
          clock around that call; an exp member the claims already had, or an earlier request, must not survive *)
       match Z_of_json (jget "exp" (jget "payload" (jget "readback" call))), Z_of_json (jget "exp_t0" call), Z_of_json (jget "exp_t1" call) with
-      | Some e, Some t0, Some t1 => if ((t0 + n <=? e) && (e <=? t1 + n))%Z then None else Some "exp is not now+n"
+      | Some e, Some t0, Some t1 =>
+          (* now+n in 64-bit signed arithmetic; beyond its range the recorded value saturates *)
+          let lo := Z.max (-9223372036854775808) (Z.min 9223372036854775807 (t0 + n)) in
+          let hi := Z.max (-9223372036854775808) (Z.min 9223372036854775807 (t1 + n)) in
+          if ((lo <=? e) && (e <=? hi))%Z then None else Some "exp is not now+n"
       | _, _, _ => Some "exp missing or not an integer" end
   end.
 
